@@ -55,6 +55,15 @@ def run(ctx):
         decimal.setcontext(decimal_context)
         ctx.count("shards_under_a_non_default_decimal_context")
         ctx.cov["decimal_contexts"] = [repr(decimal_context)[:160], repr(later_context)[:160]]
+    # prefixes of the user's own, in bases other than 10 and 2 (a "K" of 1024, a sexagesimal step, a hex step)
+    own_prefixes = []
+    for base, exp, nm in ((1024, 1, "zqK"), (60, 1, "zqsexa"), (16, 2, "zqhex"), (1024, -1, "zqperK")):
+        name = f"{nm}{ctx.shard}"
+        try:
+            pools.prefixes[name] = env.m.Prefix(base, exp, name=name, symbol=name)
+            own_prefixes.append(name)
+        except Exception:
+            pass
     n = ctx.scale(16000, 1_000_000)
     plans = set()
     modules_hit = {}
@@ -67,6 +76,10 @@ def run(ctx):
         hostile = rng.choice([0.0, 0.35, 0.8])
         factors = pools.random_factors(rng, max_factors=3, max_exp=3, hostile=hostile)
         target = pools.same_dimension_alternative(rng, factors, compose_prob=rng.choice([0.0, 0.3, 0.7]), keep_dimensionless_choice=True)
+        if own_prefixes and rng.random() < 0.06:
+            k = rng.randrange(len(factors))
+            factors[k] = (rng.choice(own_prefixes), factors[k][1], factors[k][2])
+            ctx.count("cases_with_a_prefix_of_another_base")
         st, tt = pools.factors_term(factors), pools.factors_term(target)
         try:
             src, dst = mdl.eval_real(st), mdl.eval_real(tt)
